@@ -161,6 +161,7 @@ type lockEdge struct {
 	Fn         *ssa.Function
 	Pos        token.Pos
 	Via        string
+	Root       string // entry point of the calling context
 }
 
 type heldRec struct {
@@ -617,7 +618,7 @@ func (la *LockAnalysis) applyDeferred(s *lsSummary, d *ssa.Defer, ex lockset, ad
 		cs := la.ctxFor(callee, constArgs(&d.Call, callee), ex, s, d.Pos())
 		if cs != nil {
 			for id, m := range cs.acq {
-				la.edge(ex, id, m, s.key.fn, d.Pos(), funcKey(callee))
+				la.edge(s, ex, id, m, s.key.fn, d.Pos(), funcKey(callee))
 				addAcq(id, m)
 			}
 			la.applyEffect(cs, ex)
@@ -686,11 +687,11 @@ func (la *LockAnalysis) handleCall(s *lsSummary, cc *ssa.CallCommon, ins ssa.Ins
 		}
 		switch op {
 		case "Lock":
-			la.edge(cur, id, 'W', f, ins.Pos(), "")
+			la.edge(s, cur, id, 'W', f, ins.Pos(), "")
 			cur[id] = 'W'
 			addAcq(id, 'W')
 		case "RLock":
-			la.edge(cur, id, 'R', f, ins.Pos(), "")
+			la.edge(s, cur, id, 'R', f, ins.Pos(), "")
 			if cur[id] != 'W' {
 				cur[id] = 'R'
 			}
@@ -717,21 +718,52 @@ func (la *LockAnalysis) handleCall(s *lsSummary, cc *ssa.CallCommon, ins ssa.Ins
 			la.ctxFor(cal, constArgs(cc, cal), lockset{}, s, ins.Pos())
 			continue
 		}
-		cs := la.ctxFor(cal, constArgs(cc, cal), cur, s, ins.Pos())
+		entry := cur
+		if callee == nil && !internalDynCall(cc) {
+			// tracer / handler / user callback: runs on behalf of another object
+			// (lock identity is per type), analysed with an empty entry set
+			entry = lockset{}
+		}
+		cs := la.ctxFor(cal, constArgs(cc, cal), entry, s, ins.Pos())
 		if cs == nil {
 			continue
 		}
-		for id, m := range cs.acq {
-			la.edge(cur, id, m, f, ins.Pos(), funcKey(cal))
-			addAcq(id, m)
-		}
 		if callee != nil {
+			// lock-order edges and acquire summaries follow static calls only:
+			// a dynamically resolved callee (tracer, dispose handler, user
+			// callback) usually operates on a different object, and lock identity
+			// here is per type, not per instance
+			for id, m := range cs.acq {
+				la.edge(s, cur, id, m, f, ins.Pos(), funcKey(cal))
+				addAcq(id, m)
+			}
 			eff = cs
 		}
 	}
 	if eff != nil {
 		la.applyEffect(eff, cur)
 	}
+}
+
+// internalDynCall: dynamic calls that stay on the same object and therefore
+// run under the caller's locks: the relations resolver interface and the
+// func-typed fields of Subscriptions (is / not / log are bound methods of the
+// owning machine).
+func internalDynCall(cc *ssa.CallCommon) bool {
+	if cc.IsInvoke() {
+		n := namedOf(cc.Value.Type())
+		return n != nil && n.Obj().Name() == "RelationsResolver"
+	}
+	if fl := loadOfField(cc.Value); fl != nil {
+		if u, ok := cc.Value.(*ssa.UnOp); ok {
+			if fa, ok := u.X.(*ssa.FieldAddr); ok {
+				if n := namedOf(fa.X.Type()); n != nil && n.Obj().Name() == "Subscriptions" {
+					return true
+				}
+			}
+		}
+	}
+	return false
 }
 
 // closureUse: a closure value that is stored, returned or sent is invoked
@@ -756,14 +788,21 @@ func (la *LockAnalysis) closureUse(s *lsSummary, mc *ssa.MakeClosure, cur lockse
 	}
 }
 
-func (la *LockAnalysis) edge(cur lockset, to string, toM byte, f *ssa.Function, pos token.Pos, via string) {
+func (la *LockAnalysis) edge(s *lsSummary, cur lockset, to string, toM byte, f *ssa.Function, pos token.Pos, via string) {
 	if !la.recording {
 		return
 	}
+	// an edge is attributed to the function that itself acquired the outer
+	// lock: locks inherited through the entry set were already accounted for
+	// in the caller (callee acquire summaries are transitive)
+	rk := funcKey(topFunc(f))
 	for from, fm := range cur {
-		k := fmt.Sprintf("%s:%c>%s:%c", from, fm, to, toM)
+		if _, inherited := s.entry[from]; inherited {
+			continue
+		}
+		k := fmt.Sprintf("%s:%c>%s:%c@%s", from, fm, to, toM, rk)
 		if _, ok := la.edges[k]; !ok {
-			la.edges[k] = &lockEdge{From: from, To: to, FromM: fm, ToM: toM, Fn: f, Pos: pos, Via: via}
+			la.edges[k] = &lockEdge{From: from, To: to, FromM: fm, ToM: toM, Fn: f, Pos: pos, Via: via, Root: rk}
 		}
 	}
 }
